@@ -16,6 +16,10 @@ Round 4: the strictness tolerances are read under their own keys; the plain
 bounds constraint's None conversion, membership and addressing (shared with
 C16.h); merge's exclusive table is selected by an explicit inclusive=False read
 as given.
+Round 5 (hunt): the bound enters the generated statement parenthesised (repair
+6d76e35); variable tokens and function renames are whole-name substitutions
+(repairs 1626679, 94374e7); every name the line processor rewrites a call into
+is bound in the generated code's namespace (repair c051ced).
 NOT decided: behaviour of the exec-generated functions on vectors.
 """
 import ast
@@ -159,17 +163,50 @@ def parser_decision_table(ctx):
               'constraints_parser returns %s' % (unparse(ret[-1].value) if ret else None), f, ret[-1] if ret else f.node)
 
 
-@rule('C13.b', min_instances=3)
+def _module_strings(ctx, modname):
+    """module-level NAME = 'text' constants"""
+    out = {}
+    for st in ctx.model.modules[modname].tree.body:
+        if isinstance(st, ast.Assign) and len(st.targets) == 1 and isinstance(st.targets[0], ast.Name) and isinstance(st.value, ast.Constant) and isinstance(st.value.value, str):
+            out[st.targets[0].id] = st.value
+    return out
+
+
+@rule('C13.b', min_instances=5)
 def index_replacement_cannot_clobber(ctx):
-    """both parsers substitute x10 before x1 (descending index); replace_variables substitutes longer names first"""
+    """both parsers turn the variable tokens into x[i] textually, for ANY variable-name scheme: (1) x1 must not clobber x10 - plain replacement runs over the indices in descending order, or the pattern refuses a following digit; (2) a token is only replaced where it stands as a whole name - with base name p a plain replacement also rewrites the p2 of exp2 (-> exx[2]), with e the e5 of 1e5: the substitution is a regular expression that refuses a letter, digit or underscore on either side (decided on the parsed pattern); replace_variables substitutes longer names first"""
+    from .c12 import _fold_pattern, _whole_name_pattern
+    consts = _module_strings(ctx, 'mystic.symbolic')
     for anchor in (SY + ':constraints_parser._process_line', SY + ':penalty_parser'):
         f = ctx.func(anchor)
+        loops = [n for n in ast.walk(f.node) if isinstance(n, ast.For) and calls_where(n, lambda c: isinstance(c.func, ast.Attribute) and c.func.attr in ('replace', 'sub') and
+                                                                                         'varname' in ' '.join(unparse(s) for s in n.body), include_lambda=False)]
+        ctx.need(loops, '%s: the loop that substitutes the variable tokens is not found' % f.qualname)
+        lp = min(loops, key=lambda n: sum(1 for _ in ast.walk(n)))      # the innermost such loop
+        names = dict(consts)
+        for st in lp.body:
+            if isinstance(st, ast.Assign) and len(st.targets) == 1 and isinstance(st.targets[0], ast.Name):
+                names[st.targets[0].id] = st.value
+        plain = calls_where(lp, lambda c: isinstance(c.func, ast.Attribute) and c.func.attr == 'replace' and c.args and 'varname' in unparse(c.args[0]), include_lambda=False)
+        subs = calls_where(lp, lambda c: isinstance(c.func, ast.Attribute) and c.func.attr == 'sub' and len(c.args) >= 2, include_lambda=False)
         src = ''.join(unparse(f.node).split())
-        rev = 'indices=list(range(ndim))' in src and 'indices.reverse()' in src and "foriinindices:" in src
-        rep = [c for c in calls_where(f.node, lambda c: callee_text(c).endswith('.replace') and 'varname' in unparse(c))]
-        want = "(varname+str(i),'x['+str(i)+']')"
-        ctx.check(rev and bool(rep) and ''.join(unparse(rep[0]).split()).endswith(want), f.qualname + '#descending', 'indices replaced in descending order',
-                  '%s no longer replaces variable indices from the highest down (x1 would clobber x10)' % f.qualname, f, rep[0] if rep else f.node)
+        rev = 'indices=list(range(ndim))' in src and 'indices.reverse()' in src and ''.join(unparse(lp.iter).split()) == 'indices'
+        rev = rev or ''.join(unparse(lp.iter).split()) in ('reversed(range(ndim))', 'range(ndim-1,-1,-1)')
+        if plain:
+            ctx.check(rev and ''.join(unparse(plain[0]).split()).endswith("(varname+str(i),'x['+str(i)+']')"), f.qualname + '#descending', 'indices replaced in descending order',
+                      '%s no longer replaces variable indices from the highest down (x1 would clobber x10)' % f.qualname, f, plain[0])
+            ctx.bad(f.qualname + '#whole-names', '%s substitutes the variable tokens with str.replace, wherever the characters occur: with the base name p the p2 inside exp2 becomes x[2] (NameError exx), '
+                    'with e the exponent of 1e5 - a legal variable-name scheme breaks the generated constraint' % f.qualname, f, enclosing_stmt(plain[0]))
+            continue
+        ctx.need(subs, '%s: neither str.replace nor re.sub substitutes the variable tokens' % f.qualname)
+        text = _fold_pattern(subs[0].args[0], names)
+        ctx.need(text is not None, '%s: cannot fold the pattern %s to text' % (f.qualname, unparse(subs[0].args[0])[:80]))
+        ok_ = _whole_name_pattern(text)
+        ctx.need(ok_ is not None, '%s: pattern %r cannot be parsed' % (f.qualname, text))
+        ctx.check(ok_ or rev, f.qualname + '#descending', 'x1 cannot clobber x10 (a following digit is refused, or descending order)',
+                  '%s: the pattern %r accepts x1 inside x10 and the indices are not replaced from the highest down' % (f.qualname, text), f, subs[0])
+        ctx.check(ok_, f.qualname + '#whole-names', 'tokens are matched as whole names (pattern %s)' % text,
+                  '%s matches the variable tokens with the pattern %r, which accepts a match inside a longer name or a number (p2 in exp2, e5 in 1e5)' % (f.qualname, text), f, enclosing_stmt(subs[0]))
     g = ctx.func(SY + ':replace_variables')
     src = ''.join(unparse(g.node).split())
     ctx.check('variablescopy.sort(key=lambdax:-len(x))' in src, 'replace_variables#longest-first', 'longer names replaced first',
@@ -361,3 +398,133 @@ def symbolic_bounds_constraint_keeps_tied_bounds(ctx):
     from .c12 import merge_tables, systems_are_merged_as_conjunctions
     merge_tables(ctx)
     systems_are_merged_as_conjunctions(ctx)
+
+
+@rule('C13.j', min_instances=1)
+def the_bound_is_one_operand(ctx):
+    """for 'xi > f' / 'xi < f' (and for >=, <= next to a !=) constraints_parser appends ' + <tolerance>' / ' - <tolerance>' to the TEXT of f and hands the sum to max / min: f is any expression, so unless its text is parenthesised first the appended term binds only to the last operand of a conditional expression, `or`, `and`, comparison or lambda (x0 > x1 if x2 else x3: no epsilon when the first branch is taken - the strict relation does not hold). The dict entry that carries the bound into the second pass is the parenthesised text"""
+    from .c12 import _fold_pattern
+    f = ctx.func('mystic.symbolic:constraints_parser')
+    lps = _loops(f)
+    ctx.need(len(lps) >= 2, 'constraints_parser: the two passes over the lines are not found')
+    lp = lps[1]
+    aug = [s for s in stmts_of(lp) if isinstance(s, ast.AugAssign) and ''.join(unparse(s.target).split()) == "eqn['rhs']"]
+    if not aug:
+        ctx.need(False, 'constraints_parser: the statement that appends the tolerance to the bound is not found')
+    dicts = [s for s in stmts_of(lp) if isinstance(s, ast.Assign) and len(s.targets) == 1 and isinstance(s.targets[0], ast.Name) and s.targets[0].id == 'eqn' and isinstance(s.value, ast.Dict)]
+    ctx.need(dicts, 'constraints_parser: eqn = {...} of the second pass is not found')
+    d = dicts[-1]
+    val = [v for k, v in zip(d.value.keys, d.value.values) if isinstance(k, ast.Constant) and k.value == 'rhs']
+    ctx.need(val, "constraints_parser: eqn has no 'rhs' entry")
+    v = val[0]
+
+    def core(e):
+        # the bound's own text: split[-1] with whitespace / '=' stripped - stands for VAR
+        while isinstance(e, ast.Call) and isinstance(e.func, ast.Attribute) and e.func.attr in ('strip', 'lstrip', 'rstrip'):
+            e = e.func.value
+        return e
+
+    def fold(e):
+        c = core(e)
+        if isinstance(c, ast.Subscript) and isinstance(c.value, ast.Name):
+            return 'VAR'
+        if isinstance(e, ast.Constant) and isinstance(e.value, str):
+            return e.value
+        if isinstance(e, ast.BinOp) and isinstance(e.op, ast.Add):
+            a, b_ = fold(e.left), fold(e.right)
+            return None if a is None or b_ is None else a + b_
+        if isinstance(e, ast.BinOp) and isinstance(e.op, ast.Mod) and isinstance(e.left, ast.Constant) and isinstance(e.left.value, str) and e.left.value.count('%s') == 1:
+            r = fold(e.right)
+            return None if r is None else e.left.value.replace('%s', r)
+        if isinstance(e, ast.Call) and isinstance(e.func, ast.Attribute) and e.func.attr == 'format' and len(e.args) == 1 and isinstance(e.func.value, ast.Constant):
+            r = fold(e.args[0])
+            return None if r is None else e.func.value.value.replace('{}', r).replace('{0}', r)
+        return None
+    text = fold(v)
+    ctx.need(text is not None and 'VAR' in text, "constraints_parser: cannot fold the 'rhs' entry %s to text" % unparse(v)[:80])
+    compact = ''.join(text.split())
+    ctx.check(compact.startswith('(') and compact.endswith(')') and compact.count('VAR') == 1 and compact.strip('()') == 'VAR', 'constraints_parser#bound-parenthesised',
+              "the bound enters the generated statement as (%s)" % 'rhs',
+              "constraints_parser appends the tolerance term to the bare text of the bound (%s): for a bound with a low-precedence operator (x1 if x2 else x3, x1 or 1.0) the term is added to its last operand only, "
+              "so 'x0 > x1 if x2 else x3' returns x0 == x1 - the strict relation does not hold" % unparse(v)[:80], f, d)
+
+
+# functions numpy has provided under these names throughout 1.x and 2.x (the generated code does `from numpy import *`)
+STABLE_NUMPY = {'ptp', 'var', 'prod', 'mean', 'sum', 'std', 'average', 'abs', 'max', 'min'}
+
+
+def _rewrites(fnode, consts=None):
+    """{'old': ('new', call, whole_name)} for the renamings of a line processor: `constraint.replace('old(', 'new(')` (matches anywhere:
+    whole_name False) or `re.sub(<pattern for old followed by (>, 'new(', constraint)` (whole_name as judged on the parsed pattern)"""
+    from .c12 import _whole_name_pattern
+    out = {}
+    for c in ast.walk(fnode):
+        if not (isinstance(c, ast.Call) and isinstance(c.func, ast.Attribute)):
+            continue
+        if c.func.attr == 'replace' and len(c.args) == 2 and \
+                all(isinstance(a, ast.Constant) and isinstance(a.value, str) and a.value.endswith('(') and a.value[:-1].isidentifier() for a in c.args):
+            out[c.args[0].value[:-1]] = (c.args[1].value[:-1], c, False)
+        elif c.func.attr == 'sub' and len(c.args) >= 3 and isinstance(c.args[1], ast.Constant) and isinstance(c.args[1].value, str) and c.args[1].value.endswith('(') \
+                and c.args[1].value[:-1].isidentifier():
+            # pattern: <template with one %s> % 'old' + r'\('
+            e = c.args[0]
+            tail = ''
+            if isinstance(e, ast.BinOp) and isinstance(e.op, ast.Add) and isinstance(e.right, ast.Constant):
+                tail, e = e.right.value, e.left
+            if isinstance(e, ast.BinOp) and isinstance(e.op, ast.Mod) and isinstance(e.right, ast.Constant) and isinstance(e.right.value, str) and e.right.value.isidentifier():
+                tpl = e.left
+                if isinstance(tpl, ast.Name) and consts and tpl.id in consts:
+                    tpl = consts[tpl.id]
+                if isinstance(tpl, ast.Constant) and isinstance(tpl.value, str) and tpl.value.count('%s') == 1 and tail in ('\\(', '[(]'):
+                    out[e.right.value] = (c.args[1].value[:-1], c, bool(_whole_name_pattern(tpl.value.replace('%s', 'VAR'))))
+    return out
+
+
+def _preamble_names(f):
+    """names bound EXPLICITLY by the import preamble a generator executes before the generated code (star imports aside)"""
+    text = ''
+    for st in stmts_of(f.node):
+        if isinstance(st, (ast.Assign, ast.AugAssign)) and isinstance(st.value, ast.Constant) and isinstance(st.value.value, str) and 'import' in st.value.value and \
+                any(isinstance(n, ast.Name) and n.id == 'code' for n in ast.walk(st.targets[0] if isinstance(st, ast.Assign) else st.target)):
+            text += st.value.value
+    names, stars = set(), set()
+    try:
+        tree = ast.parse(text)
+    except SyntaxError:
+        return None, None
+    for n in ast.walk(tree):
+        if isinstance(n, ast.ImportFrom):
+            for a in n.names:
+                if a.name == '*':
+                    stars.add(n.module)
+                else:
+                    names.add(a.asname or a.name)
+        elif isinstance(n, ast.Import):
+            names |= set((a.asname or a.name).split('.')[0] for a in n.names)
+    return names, stars
+
+
+def rewritten_names_are_bound(ctx, parser_anchor, generator_anchor, label):
+    """writer / namespace agreement: every function name a line processor rewrites a call INTO must be bound in the namespace in which
+    the generator executes the produced text - named explicitly in its import preamble, or one of the long-standing numpy functions its
+    `from numpy import *` provides"""
+    pf = ctx.func(parser_anchor)
+    gf = ctx.func(generator_anchor)
+    rw = _rewrites(pf.node, _module_strings(ctx, 'mystic.symbolic'))
+    ctx.need(len(rw) >= 3, '%s: expected >= 3 call renamings in the line processor, found %d' % (label, len(rw)))
+    names, stars = _preamble_names(gf)
+    ctx.need(names is not None and (names or stars), '%s: the import preamble of %s cannot be read' % (label, gf.qualname))
+    for old, (new, c, whole) in sorted(rw.items()):
+        ctx.check(whole, '%s#%s-whole-name' % (label, old), '%s( is renamed only where it is the whole function name' % old,
+                  '%s renames %s( wherever the characters occur: nan%s( / cum%s( in a legal text become nan%s( / cum%s(, names that do not exist (NameError when the generated function is first called)'
+                  % (pf.qualname, old, old, old, new, new), pf, c)
+        ok_ = new in names or ('numpy' in stars and new in STABLE_NUMPY)
+        ctx.check(ok_, '%s#%s->%s' % (label, old, new), '%s( is bound where the generated text runs' % new,
+                  '%s rewrites %s( into %s(, but %s does not bind the name %s explicitly and numpy does not provide it in every supported version (numpy.product was removed in 2.0): '
+                  'a legal text using %s( raises NameError when the generated function is first called' % (pf.qualname, old, new, gf.qualname, new, old), pf, c)
+
+
+@rule('C13.k', min_instances=4)
+def solver_text_only_names_bound_functions(ctx):
+    """constraints_parser renames ptp( / average( / var( / prod( into mystic's spread( / mean( / variance( / product(; generate_solvers executes the result: each of those names is bound by its import preamble"""
+    rewritten_names_are_bound(ctx, SY + ':constraints_parser._process_line', SY + ':generate_solvers', 'constraints_parser')
